@@ -33,8 +33,8 @@ type tqCase struct {
 	MaxRetries int        `json:"maxretries"`
 	MaxDelay   int        `json:"maxdelay"` // lfs.transfer.maxretrydelay (-1 = unset)
 	Upload     bool       `json:"upload"`
-	Obj        [][]string `json:"obj"`   // per oid, per attempt: action:<ok|retriable|fatal|later|422> | noaction | error | omit | dup:<…> | expired | missing
-	Calls      []string   `json:"calls"` // per batch request: 200 | 429 | 429:<secs> | 500 | 404
+	Obj        [][]string `json:"obj"`     // per oid, per attempt: action:<ok|retriable|fatal|later|422> | noaction | error | omit | dup:<…> | expired | missing
+	Calls      []string   `json:"calls"`   // per batch request: 200 | 429 | 429:<secs> | 500 | 404
 	Unknown    []bool     `json:"unknown"` // per batch request: add an object nobody asked about
 	Workers    int        `json:"workers"`
 	// schedule perturbation: the watcher's consumer sleeps between reads, and further (duplicate) adds
@@ -79,25 +79,25 @@ type tqAdapterCall struct {
 	NotBefore  int64  `json:"not_before,omitempty"` // the adapter deferred this object until then (Retry-After on the transfer)
 }
 type tqBatchReq struct {
-	At   int64    `json:"at"`
-	Oids []string `json:"oids"`
-	Call string   `json:"call"`
-	Raw  string   `json:"raw,omitempty"`
-	Hdr  map[string]string `json:"hdr,omitempty"`
-	DateNB int64 `json:"date_nb,omitempty"` // a 429 answered with an HTTP-date: the instant that date names (ms since start)
+	At     int64             `json:"at"`
+	Oids   []string          `json:"oids"`
+	Call   string            `json:"call"`
+	Raw    string            `json:"raw,omitempty"`
+	Hdr    map[string]string `json:"hdr,omitempty"`
+	DateNB int64             `json:"date_nb,omitempty"` // a 429 answered with an HTTP-date: the instant that date names (ms since start)
 }
 type tqObs struct {
-	AddsReturned int             `json:"adds_returned"`
-	LateAdded    int             `json:"late_added"`
-	Inconclusive bool            `json:"inconclusive,omitempty"`
-	AddBlocked   bool            `json:"add_blocked"`
-	WaitReturned bool            `json:"wait_returned"`
-	Delivered    []string        `json:"delivered"`
-	Errors       []string        `json:"errors"`
-	Calls        []tqAdapterCall `json:"adapter_calls"`
-	Batches      []tqBatchReq    `json:"batches"`
-	Trace        []string        `json:"trace"`
-	Panic        string          `json:"panic,omitempty"`
+	AddsReturned int              `json:"adds_returned"`
+	LateAdded    int              `json:"late_added"`
+	Inconclusive bool             `json:"inconclusive,omitempty"`
+	AddBlocked   bool             `json:"add_blocked"`
+	WaitReturned bool             `json:"wait_returned"`
+	Delivered    []string         `json:"delivered"`
+	Errors       []string         `json:"errors"`
+	Calls        []tqAdapterCall  `json:"adapter_calls"`
+	Batches      []tqBatchReq     `json:"batches"`
+	Trace        []string         `json:"trace"`
+	Panic        string           `json:"panic,omitempty"`
 	NotBefore    map[string]int64 `json:"not_before,omitempty"` // oid -> earliest allowed re-batch time (Retry-After), ms
 }
 
@@ -471,7 +471,7 @@ addLoop:
 		case <-waited:
 			obs.WaitReturned = true
 			<-watchDone
-		case <-time.After(6 * time.Second):
+		case <-time.After(6*time.Second + tc.legitimateWaits()):
 		}
 	}
 	if obs.WaitReturned {
@@ -490,6 +490,42 @@ addLoop:
 	sort.Strings(obs.Delivered)
 	dmu.Unlock()
 	return obs
+}
+
+// legitimateWaits: the longest time the queue may rightly spend WAITING on this case — the back-off before the
+// k-th retry of an object is 250 ms · 2^k, capped by lfs.transfer.maxretrydelay (10 s when unset, none when 0),
+// and every scripted Retry-After is honoured in full.  "Wait never returned" is judged after this much more.
+func (tc tqCase) legitimateWaits() time.Duration {
+	limit := 10 * time.Second
+	if tc.MaxDelay >= 0 {
+		limit = time.Duration(tc.MaxDelay) * time.Second
+	}
+	var total time.Duration
+	for k := 1; k <= tc.MaxRetries; k++ {
+		d := 250 * time.Millisecond << uint(k)
+		if d > limit {
+			d = limit
+		}
+		total += d
+	}
+	for _, sc := range tc.Obj {
+		for _, e := range sc {
+			switch {
+			case strings.HasSuffix(e, "later1"):
+				total += time.Second
+			case strings.HasSuffix(e, "later2"):
+				total += 2 * time.Second
+			case strings.HasSuffix(e, "later3"):
+				total += 3 * time.Second
+			}
+		}
+	}
+	for _, cl := range tc.Calls {
+		if strings.HasPrefix(cl, "429:") {
+			total += 2 * time.Second
+		}
+	}
+	return total
 }
 
 // tqChildMain: `lfsverif tqchild <workdir>`: one case per stdin line, one JSON observation per stdout line.
